@@ -1,5 +1,7 @@
 """C06 - point / expression algebra is a faithful vector-space and inner-product calculus."""
 import random
+
+import numpy as np
 import time
 import warnings
 
@@ -24,7 +26,7 @@ def plan(tier, seed):
             for i in range(NSHARDS)]
 
 
-SCALARS = [0, 1, -1, 2, 3, -2, 0.5, -0.25, 1.5, 1e-3, 7.0, True, False, 0.0, -0.0, 1e6, 1 / 3]
+SCALARS = [0, 1, -1, 2, 3, -2, 0.5, -0.25, 1.5, 1e-3, 7.0, True, False, 0.0, -0.0, 1e6, 1 / 3, 1e-12, 1e12, -1e-11, 1e-200, 3e-160]
 
 
 def _absmag(o):
@@ -54,7 +56,14 @@ def tree_workload(rng, n_ops, mon):
             try:
                 with warnings.catch_warnings():
                     warnings.simplefilter("ignore")
-                    if r < 0.16:
+                    if r < 0.012:
+                        # the documented constructor: a combination given by its decomposition, zero weights included
+                        leaves = [p_ for p_ in pts if p_.get_is_leaf()] or pts[:1]
+                        dd = {}
+                        for p_ in rng.sample(leaves, min(len(leaves), rng.randint(1, 3))):
+                            dd[p_] = rng.choice([0, 0.0, 1.0, -2.0, 0.5, 1e-12])
+                        pts.append(Point(is_leaf=False, decomposition_dict=dd))
+                    elif r < 0.16:
                         pts.append(rng.choice(pts) + rng.choice(pts))
                     elif r < 0.28:
                         pts.append(rng.choice(pts) - rng.choice(pts))
@@ -107,6 +116,8 @@ def tree_workload(rng, n_ops, mon):
                         mon.by_op["augmented_assignment"] = mon.by_op.get("augmented_assignment", 0) + 1
                         if not mon.same_snap(snap, mon.snap(old)) or new is old:
                             mon._viol("operand_mutated:augmented_assignment", "an augmented assignment (+=, -=) altered the object bound before", "iadd", old, b)
+                        elif not (np.all(np.isfinite(mon.den(new))) and np.all(np.isfinite(want)) and np.isfinite(mag)):
+                            mon.by_op["skipped_nonfinite"] = mon.by_op.get("skipped_nonfinite", 0) + 1
                         elif not mon._close(mon.den(new), want, mag):
                             mon._viol("wrong_denotation:augmented_assignment", "augmented assignment denotes %r, operands give %r (operand magnitudes %r, %r)"
                                       % (mon.den(new), want, mon.den(old), mon.den(b)), "iadd", old, b)
